@@ -647,6 +647,7 @@ def run_shard(ctx):
     space = packages.PackageSpace(os.path.join(ctx.tmp, "pkgs"),
                                   "c11s%d" % ctx.shard)
     space.split_every = 3
+    space.odd_every = 5
     # a directory name with characters that mean something in a URL
     d = os.path.join(ctx.tmp, "sext %41 #1 é")
     try:
